@@ -201,6 +201,7 @@ class Runner:
             o.attrs.update(A.class_constants(None, m.classes[c]))
             inits = [n for n in m.classes[c].body if isinstance(n, (ast.FunctionDef, ast.AsyncFunctionDef)) and n.name in ('__init__', '_connect_impl')]
             inits.sort(key=lambda n: n.name != '__init__')          # the state after a successful connect: what _connect_impl binds overrides __init__
+            init_stmts = {id(i_): set(ast.walk(i_)) for i_ in inits}
             for st in [x for init in inits for x in ast.walk(init)]:
                 if isinstance(st, (ast.Assign, ast.AnnAssign)):
                     tg = st.targets[0] if isinstance(st, ast.Assign) and len(st.targets) == 1 else (st.target if isinstance(st, ast.AnnAssign) else None)
@@ -212,6 +213,20 @@ class Runner:
                             o.attrs[tg.attr] = A.Interp().expr(v, {})
                         elif isinstance(v, (ast.List,)) and not v.elts:
                             o.attrs[tg.attr] = A.AList([])
+                        elif st in init_stmts.get(id(inits[0]) if inits and inits[0].name == '__init__' else None, ()) and tg.attr not in ('reader', 'writer', 'queue', 'decoder', 'lock', 'logger'):
+                            # anything else __init__ binds (a dictionary of counters, an optional argument left at its default): evaluated with the
+                            # parameters at their defaults; what cannot be evaluated stays unmodelled
+                            try:
+                                penv = {}
+                                a_ = inits[0].args
+                                pos = a_.args[len(a_.args) - len(a_.defaults):] if a_.defaults else []
+                                for pa, dv in list(zip(pos, a_.defaults)) + [(pa, dv) for pa, dv in zip(a_.kwonlyargs, a_.kw_defaults) if dv is not None]:
+                                    penv[pa.arg] = A.Interp(module=self.menv).expr(dv, {})
+                                val_ = A.Interp(module=self.menv).expr(v, penv)
+                                if val_ is None or isinstance(val_, (bool, A.AInt, A.AStr, A.ABytes, A.AList, A.ADict)):
+                                    o.attrs[tg.attr] = val_
+                            except (A.Unknown, A.PyError, A.RaiseSignal, KeyError, AttributeError, TypeError, RecursionError):
+                                pass
         o.attrs['reader'] = A.AObj(kind='reader')
         o.attrs['decoder'] = A.AObj(kind='decoder')
         o.attrs['queue'] = A.AObj(kind='queue')
